@@ -14,7 +14,7 @@ import os
 import aiohttp
 from hypothesis import strategies as st
 
-from pbt.core import Violation, hyp_run, use_repo
+from pbt.core import Violation, fuzz_run, hyp_run, use_repo
 from pbt.simloop import run_sim, SimDeadlock, SimTimeout
 
 use_repo()
@@ -37,7 +37,8 @@ RULE = ('Fault alphabet per attempt: timeout, ServerDisconnectedError, Connectio
         'attempt, block file bytes/size exact, and for single calls the URL and virtual delay of '
         'every attempt match a reference model of exponential back-off with round-robin fail-over. '
         'Non-trivial = a fail-over occurred, or a fault hit a vector call, or a block stream was '
-        'cut. distinct = distinct (urls, back-off, calls, fault sequence).')
+        'cut. distinct = distinct (urls, back-off, calls, fault sequence).' 
+        'c18.fuzz_case: the drawn fault scripts steered by libFuzzer coverage of server/daemon.py (pbt/fuzz.py), same oracle.')
 ASSUMPTIONS = ['the fake HTTP layer models bitcoind: batch replies in request order, '
                'Content-Type exactly application/json / application/octet-stream',
                'virtual time: back-off sleeps are observed exactly']
@@ -591,8 +592,14 @@ def drawn_body(ctx):
     return body
 
 
+# the drawn fault scripts steered by libFuzzer's coverage of server/daemon.py (pbt/fuzz.py)
+FUZZ_TARGETS = {'c18.fuzz_case': {'kind': 'hyp', 'strategy': CASE, 'make': drawn_body,
+                                  'max_len': 4096}}
+
+
 def run(ctx):
-    hyp_run(ctx, 'c18.case', CASE, drawn_body(ctx), ctx.pick(250, 20000))
+    hyp_run(ctx, 'c18.case', CASE, drawn_body(ctx), ctx.pick(250, 20000), frac=0.3)
+    fuzz_run(ctx, 'c18.fuzz_case', ctx.pick(150, 200000), frac=0.3)
     run_exhaustive(ctx)
 
 
